@@ -170,8 +170,8 @@ impl<T: BinarySerializer> BinarySerializer for Streamed<T> {
         &self,
         context: &mut desert::SerializationContext<O>,
     ) -> desert::Result<()> {
-        let mut it = self.0.iter().filter(|_| true);
-        debug_assert!(it.size_hint().0 != it.size_hint().1.unwrap_or(usize::MAX) || self.0.is_empty());
+        // size hint (n, Some(2n)) for n items: neither exact nor unbounded
+        let mut it = self.0.iter().chain(self.0.iter().filter(|_| false));
         desert::serialize_iterator(&mut it, context)
     }
 }
